@@ -3,6 +3,7 @@ import Nstd.Variant.LemmasDec
 import Nstd.Variant.Ieee
 import Nstd.Variant.DeepRun
 import Nstd.Variant.DeepFuel
+import Nstd.Variant.DeepSelf
 /-
   Property C07 — Variant keeps the last assigned value with independent lazy copies.
 
@@ -454,6 +455,40 @@ theorem deep_access (ds : DblSem) {h : Deep.Heap} {vars e g c} (hd : Deep.Held h
     (f : Nat) (hf : Deep.liveCount h + 1 < f) :
     ∃ h' b g', Deep.accessCell f ds h c k = some (h', .ptr b) ∧ Deep.Accessed ds h vars e g c k h' b g' :=
   Deep.dinv_access ds hd k hk f hf
+
+/-! ## the finding "self-append" (KF-C07-self-append) as a theorem
+
+`Deep.selfLink ds s v p lk` is what the real code executes for `walkMut(v, p)->toList().append(v)` (`lk`: `append` /
+`prepend` on the list, `append` on the array, `append(k, ·)` with a new key on the map; `p`: any existing path, the
+empty one being `v.toList().append(v)` itself): the accessor chain — the accepted line `mut v p touch kind` — then the
+copy constructor on the *current* `v` (share the root block, `++ref`), then the link into the payload the chain
+returned.  `drun` refuses exactly these lines (`mutOk`); the two theorems below say what that precondition separates. -/
+
+/-- After every history, for every variable `v`, every existing path `p` into its value and each of the four linking
+    container operations: the self-append step of the real code runs without fault, and afterwards the root block `b`
+    of `v` (the witness) reaches itself through stored handles — `v` contains itself —, its reference count is ≥ 2 with
+    one handle held inside the cycle (so `clear()` of `v` does not free it), and the heap represents **no** store of
+    values any more (`∀ σ', ¬ DGood s' σ'`: no later operation is covered by `deep_refines`). -/
+theorem self_append_creates_cycle (ds : DblSem) (ops : List Op) (hsup : ∀ op ∈ ops, Deep.OpSup op)
+    (v : Nat) (hv : v < nvars) (p : List Step) (lk : Deep.LinkKind) (z : Val)
+    (hz : getPath p (specRun ds Store.init ops v) = some z)
+    (hfresh : ∀ k, lk = .mput k → mapFind (coerce ds 7 z).asMap k = none) :
+    ∃ s, Deep.drun ds Deep.dinit Store.init ops = some (s, specRun ds Store.init ops) ∧
+      ∃ s' b, Deep.selfLink ds s v p lk = some s' ∧ s'.vars v = .ptr b ∧ Deep.Cyclic s'.h b ∧
+        (∃ blk, s'.h.heap b = some blk ∧ 2 ≤ blk.ref) ∧ ∀ σ', ¬ Deep.DGood s' σ' := by
+  obtain ⟨s, r, g⟩ := Deep.drun_refines ds ops Deep.dinit Store.init Deep.dgood_init hsup
+  exact ⟨s, r, Deep.self_link_cycle ds g v hv p lk z hz hfresh⟩
+
+/-- Conversely: the lines the model accepts never build a cycle — after every history no block reaches itself. -/
+theorem accepted_lines_acyclic (ds : DblSem) (ops : List Op) (hsup : ∀ op ∈ ops, Deep.OpSup op) :
+    ∃ s, Deep.drun ds Deep.dinit Store.init ops = some (s, specRun ds Store.init ops) ∧ ∀ b, ¬ Deep.Cyclic s.h b := by
+  obtain ⟨s, r, g⟩ := Deep.drun_refines ds ops Deep.dinit Store.init Deep.dgood_init hsup
+  exact ⟨s, r, Deep.dgood_acyclic g⟩
+
+/-- non-vacuity / the probes of the correspondence run: `Variant v; v.toList(); v.toList().append(v)` and the nested
+    `v.toList().append(List()); v.toList().back().toList().append(v)` -/
+example : (Deep.selfLink ieee Deep.dinit 0 [] .lapp).map (fun s => (s.vars 0, s.h.heap 0)) =
+    some (.ptr 0, some ⟨2, .list [.ptr 0]⟩) := by rfl
 
 /-! ## non-vacuity -/
 
